@@ -133,12 +133,16 @@ class Setup(Lane):
             if o['connect'] is None or o['connect'][0] != 'tcp':
                 return [('ldap/ldaps connect over TCP', FALSE)]
             tgt = o['connect'][1]
+            if tgt is None:
+                tgt_known = False      # native replay: the connect target is not observable, only whether/when setup returned
             default = 389 if sch == 'ldap' else 636
             wport = d['port'] if d['port'] is not None else z3.BitVecVal(default, 16)
             whost = list(d['host']) if d['host'] else S('localhost')
             items = tgt.parts.get('items') if isinstance(tgt, FmtV) else None
-            if items is None:
-                return [('the connect target could be decoded', FALSE)]
+            if tgt is None:
+                items = []
+            elif items is None:
+                raise Unsupported('connect target is not a decodable format!() result')
             # host:port  rendered as  [host] ":" [port]   or   "localhost:" [port]
             flat_host = []; port_term = None
             for kind, v in items:
@@ -148,8 +152,9 @@ class Setup(Lane):
                     flat_host += list(v.b)
                 elif z3.is_bv(v):
                     port_term = v
-            obs.append(('TCP target host is the URL host, or localhost when the host is missing', eq_term(SliceV(flat_host), SliceV(whost + S(':')))))
-            obs.append(('TCP target port is the URL port, else 389 (ldap) / 636 (ldaps)', (port_term == wport) if port_term is not None else FALSE))
+            if tgt is not None:
+                obs.append(('TCP target host is the URL host, or localhost when the host is missing', eq_term(SliceV(flat_host), SliceV(whost + S(':')))))
+                obs.append(('TCP target port is the URL port, else 389 (ldap) / 636 (ldaps)', (port_term == wport) if port_term is not None else FALSE))
         if d['timeout'] is not None:
             tw = o['timeout_wraps'] or ''
             obs.append(('a connection timeout bounds the whole establishment (the new_tcp future, not just the socket connect)', z3.BoolVal('new_tcp' in str(tw))))
@@ -165,7 +170,8 @@ class Setup(Lane):
             url += '//' + host
             if cd['port'] is not None: url += ':' + str(conc(cd['port']))
         url += '/'
-        return {'cmd': 'async:connect', 'url': url, 'stream': cd['stream'], 'bind_unix': bool(sch == 'ldapi' and cd['stream'] is None and host), 'timeout_ms': None if cd['timeout'] is None else 300, 'starttls': bool(z3.is_true(cd['starttls'])),
+        stall = bool(sch in ('ldap', 'ldaps') and cd['stream'] is None and cd['timeout'] is not None)
+        return {'cmd': 'async:connect', 'url': url, 'stream': cd['stream'], 'bind_unix': bool(sch == 'ldapi' and cd['stream'] is None and host), 'stall_listener': stall, 'timeout_ms': None if cd['timeout'] is None else 300, 'starttls': True if stall else bool(z3.is_true(cd['starttls'])),
                 'want_host': host, 'want_port': None if cd['port'] is None else conc(cd['port'])}
 
     def native_outcome(self, cd, j):
@@ -180,8 +186,14 @@ class Setup(Lane):
             # the real code went on to the socket (connected, or the OS refused): no setup error was raised
             ev_['result'] = 'reached-socket'
             ev_['connect'] = ('unix' if cd['scheme_name'] == 'ldapi' else 'tcp', None, True)
+        elif v['r'] == 'hang':
+            # the peer accepted and stalled, a timeout was set, and establishment did not return: the timeout does not cover it
+            ev_['result'] = 'reached-socket'; ev_['timeout_wraps'] = None
+            ev_['connect'] = ('tcp', None, False)
         else:
-            raise RuntimeError('native run hung')
+            raise RuntimeError('unexpected native result')
+        if v['r'] == 'err' and v['kind'] == 'Timeout':
+            ev_['connect'] = ('tcp', None, True)
         return ('ret', ev_)
 
     def summary(self, out, model=None):
